@@ -4,6 +4,7 @@ import structcases
 import structgen
 
 ID = "C06"
+TABLES = ["scalar", "rust_type"]      # leaf tables compared exhaustively through the hooks (coq/Check/Tables.v)
 REQUIRES = ["Agree", "StructSpec", "C06Spec", "Truth"]
 THEOREM_REQUIRES = ["C06"]
 THEOREMS = ["C06_holds", "C06_holds_fields", "C06_holds_fields_kf", "C06_holds_named", "C06_refuted", "C06_leaf_table"]
